@@ -88,6 +88,7 @@ struct World {
   std::vector<std::string> requested_section_names;   // index = section id (0 = .text)
   std::vector<int> errs;
   FuncNode* func = nullptr;
+  size_t stale_pass_data = 0; // nodes that still carry RA pass data after a finalize() (the pass arena has been reset by then)
   size_t ra_labels = 0;      // labels created inside finalize() (by the register allocator / serialisation), cumulative
   std::vector<void*> kept;   // heap perturbation blocks kept alive until the end of the case
 };
@@ -288,6 +289,14 @@ static void run_op(World& w, const std::string& op) {
                 size_t before = w.code->label_count();
                 err = e->finalize();
                 w.ra_labels += w.code->label_count() - before;
+                // monitor: the register allocator's per-node data lives in the pass arena, which is reset when finalize() returns
+                // (success or failure): no node reachable from the builder may still point to it
+                {
+                  BaseBuilder* bb = static_cast<BaseBuilder*>(e);
+                  size_t guard = 0;
+                  for (BaseNode* n = bb->first_node(); n && guard < 1000000; n = n->next(), guard++) if (n->has_pass_data()) w.stale_pass_data++;
+                  for (LabelNode* ln : bb->_label_nodes) if (ln && ln->has_pass_data()) w.stale_pass_data++;
+                }
                 break; }
     default: err = Error::kInvalidArgument; break;
   }
@@ -353,7 +362,7 @@ static std::string dump(World& w) {
     o << "]";
   }
   o << " addrtab=" << int(c.has_address_table_section());
-  o << " namesok=" << names_ok;
+  o << " namesok=" << names_ok << " stalepd=" << w.stale_pass_data;
   if (w.kind == 'c') {
     BaseCompiler* cc = static_cast<BaseCompiler*>(w.em);
     o << " vregs=" << cc->virt_regs().size() << " ja=" << cc->jump_annotations().size();
